@@ -308,7 +308,7 @@ def check_entry(rep, it, dec, tag, fname, args, st, tenv, want, beh, behaviour_l
     s2, rv = outs[0]
     rep.states += 1
     if is_abnormal(rv):
-        rep.violation(rep.pid + ':wrapper:' + tag, f'{tag}: {rv!r}', {})
+        rep.structural(rep.pid + ':wrapper:' + tag, f'{tag}: {rv!r}', {}, battery)
         return
     events = list(s2.aux.get('w', ()))
     O = SO if side == 'ser' else DO
@@ -348,7 +348,12 @@ def check_entry(rep, it, dec, tag, fname, args, st, tenv, want, beh, behaviour_l
         if want in ('nested', 'hr'):
             report_hr(rep, side, f'{tag}: the nested value is handed a serializer whose is_human_readable differs from the inner format\'s')
         else:
-            rep.violation(rep.pid + ':wrapper:' + tag, f'{tag}: the scalar is not forwarded unchanged', {})
+            rep.structural(rep.pid + ':wrapper:' + tag, f'{tag}: the scalar is not forwarded unchanged', {}, battery)
+
+
+def battery():
+    r, r3 = replay([{'op': 'nested_shapes'}])[0], replay([{'op': 'smile_nested'}])[0]
+    return sorted(k for k, v in r.items() if v is not True) + sorted(k for k, v in r3.items() if any(x != 'equal' for x in v.values()))
 
 
 def report_struct(rep, tag, what, detail):
@@ -466,7 +471,7 @@ def run_de(rep, prog):
         s2, rv = outs[0]
         rep.states += 1
         if is_abnormal(rv):
-            rep.violation(rep.pid + ':wrapper:' + tag, f'{tag}: {rv!r}', {})
+            rep.structural(rep.pid + ':wrapper:' + tag, f'{tag}: {rv!r}', {}, battery)
             return
         events = list(s2.aux.get('w', ()))
         good, same = expect(events, rv, s2, it)
@@ -476,7 +481,7 @@ def run_de(rep, prog):
             return
         m = dec.decide(tag + ':values-and-format-flag-unchanged', s2, z3.Not(same))
         if m is not None:
-            rep.violation(rep.pid + ':wrapper:' + tag, f'{tag}: a scalar / flag is not forwarded unchanged', {})
+            rep.structural(rep.pid + ':wrapper:' + tag, f'{tag}: a scalar / flag is not forwarded unchanged', {}, battery)
         finish_engine(rep, it)
 
     name_b, flds = b'N', (b'a', b'b')
